@@ -176,6 +176,8 @@ func availIdx(pool []string) []int {
 	return out
 }
 
+var seqAll runner.Seq
+
 func runScenario(sc *Scn, rep *runner.Report, replayChoices []int) []explore.Failure {
 	policy, cancel := loadPolicy(sc)
 	defer cancel()
@@ -308,7 +310,12 @@ func runScenario(sc *Scn, rep *runner.Report, replayChoices []int) []explore.Fai
 	if replayChoices != nil {
 		return ex.RunOnce(replayChoices, body).Failures
 	}
-	ex.Explore(body)
+	// selections follow each other in one process (package-level state in the policies - pools,
+	// caches - carries over): a failure that needs the previous selection is replayed with it
+	seqAll.Explore(ex, sc, rep, body)
+	if false {
+		ex.Explore(body)
+	}
 	if sc.Policy == "random" {
 		for _, i := range avail {
 			if !reached[i] {
@@ -317,7 +324,13 @@ func runScenario(sc *Scn, rep *runner.Report, replayChoices []int) []explore.Fai
 			}
 		}
 	}
-	rep.AddStats(sc, &ex.Stats)
+	if sc.Policy == "random" && len(ex.Stats.Failures) > 0 {
+		for _, f := range ex.Stats.Failures {
+			if f.Sig == "random-never-picks-available" {
+				rep.Fail(sc, f.Sig, f.Msg, nil)
+			}
+		}
+	}
 	rep.States++
 	if len(avail) > 0 && len(avail) < len(sc.Pool) {
 		rep.Nontrivial++
@@ -442,6 +455,22 @@ func main() {
 			}
 			fs := runScenario(scAny.(*Scn), runner.NewReport(), choices)
 			return fs
+		},
+		ReplayH: func(hist []runner.HistItem, scAny any, choices []int) []explore.Failure {
+			for _, it := range hist {
+				hs := &Scn{}
+				if json.Unmarshal(it.Scenario, hs) == nil {
+					c := it.Choices
+					if c == nil {
+						c = []int{}
+					}
+					runScenario(hs, runner.NewReport(), c)
+				}
+			}
+			if choices == nil {
+				choices = []int{}
+			}
+			return runScenario(scAny.(*Scn), runner.NewReport(), choices)
 		},
 		Budget: func(tier string) time.Duration {
 			if tier == "thorough" {
